@@ -11,7 +11,7 @@ type In struct {
 	HTML   string `json:"html"`
 	User   string `json:"user,omitempty"` // user-origin style sheet
 	Engine string `json:"engine,omitempty"`
-	Kind   string `json:"kind"` // "ow-table" | "pair-table" | "deco-table" | "random"
+	Kind   string `json:"kind"` // "ow-table" | "pair-table" | "deco-table" | "unit-table" | "random"
 
 	Rules     []Rule `json:"rules"`                // every @page rule, author sheet first (in order), then user sheet
 	RootBreak string `json:"root_break,omitempty"` // break-before of the root element: "", left, right, recto, verso
@@ -64,10 +64,47 @@ type Rule struct {
 // Decl is one declaration of a @page rule.  P is one of: size (W,H), margin (1–4 values),
 // margin-top/right/bottom/left, padding (1–4), padding-top/…, counter-reset (page N),
 // counter-increment (page N), mbox (format id of an @bottom-center content declaration).
+// V are px values; for size, margin* and padding* T may give, value by value, the literal CSS token
+// written instead ("" = V[i] px): a number with one of the units px pt pc mm cm in Q em %, or auto
+// (margins only).  The reference model parses the token itself (cascade.go: parseTok).
 type Decl struct {
-	P   string `json:"p"`
-	V   []int  `json:"v"`
-	Imp bool   `json:"imp,omitempty"`
+	P   string   `json:"p"`
+	V   []int    `json:"v"`
+	T   []string `json:"t,omitempty"`
+	Imp bool     `json:"imp,omitempty"`
+}
+
+// hasUnits tells whether some @page value of the document is not written in px.
+func (in *In) hasUnits() bool {
+	for _, r := range in.Rules {
+		for _, d := range r.Decls {
+			for _, t := range d.T {
+				if t != "" {
+					return true
+				}
+			}
+		}
+	}
+	return false
+}
+
+// tok returns the literal token of value i.
+func (d Decl) tok(i int) string {
+	if i < len(d.T) && d.T[i] != "" {
+		return d.T[i]
+	}
+	if d.V[i] == 0 {
+		return "0"
+	}
+	return fmt.Sprintf("%dpx", d.V[i])
+}
+
+func (d Decl) valText() string {
+	parts := make([]string, len(d.V))
+	for i := range d.V {
+		parts[i] = d.tok(i)
+	}
+	return strings.Join(parts, " ")
 }
 
 var mboxFormats = []string{
@@ -131,7 +168,7 @@ func (r Rule) cssText() string {
 		case "mbox":
 			fmt.Fprintf(&sb, "@bottom-center { content: %s%s } ", mboxFormats[d.V[0]], imp)
 		default:
-			fmt.Fprintf(&sb, "%s: %s%s; ", d.P, pxList(d.V), imp)
+			fmt.Fprintf(&sb, "%s: %s%s; ", d.P, d.valText(), imp)
 		}
 	}
 	sb.WriteString("}\n")
